@@ -4,6 +4,9 @@ every responseWriter method, and the run invariant behind the property theorems.
 -/
 import CaddyModel.C15.Spec
 
+set_option linter.unusedSimpArgs false
+set_option linter.unusedVariables false
+
 namespace CaddyModel.C15
 
 /-! ## http.Header -/
@@ -51,5 +54,523 @@ theorem hGet_congr {h h' : Hdr} {k : Bytes} (e : hValues h k = hValues h' k) : h
 
 theorem hasVary_congr {h h' : Hdr} (e : hValues h kVary = hValues h' kVary) : hasVary h = hasVary h' := by
   unfold hasVary; rw [e]
+
+/-! ## the header edits of `init` -/
+
+theorem hValues_etagStep_ne (name : Bytes) (h : Hdr) {k : Bytes} (hne : k ≠ kEtag) :
+    hValues (etagStep name h) k = hValues h k := by
+  unfold etagStep
+  split
+  · exact hValues_set_ne h _ hne
+  · rfl
+
+theorem hValues_varyStep_ne (h : Hdr) {k : Bytes} (hne : k ≠ kVary) :
+    hValues (varyStep h) k = hValues h k := by
+  unfold varyStep
+  split
+  · rfl
+  · exact hValues_add_ne h _ hne
+
+theorem hasVary_varyStep (h : Hdr) : hasVary (varyStep h) = true := by
+  unfold varyStep
+  by_cases hv : hasVary h = true
+  · simp [hv]
+  · simp [hv]
+    unfold hasVary
+    rw [hValues_add_self, List.any_append]
+    have : varyValueHas vAE = true := by decide
+    simp [this]
+
+/-- values of a key that `init` does not edit -/
+theorem initHdr_other (name : Bytes) (h : Hdr) {k : Bytes}
+    (h1 : k ≠ kCL) (h2 : k ≠ kCE) (h3 : k ≠ kVary) (h4 : k ≠ kAR) (h5 : k ≠ kEtag) :
+    hValues (initHdr name h) k = hValues h k := by
+  unfold initHdr
+  rw [hValues_etagStep_ne _ _ h5, hValues_del_ne _ h4, hValues_varyStep_ne _ h3, hValues_set_ne _ _ h2,
+    hValues_del_ne _ h1]
+
+theorem initHdr_CE (name : Bytes) (h : Hdr) : hValues (initHdr name h) kCE = [name] := by
+  unfold initHdr
+  rw [hValues_etagStep_ne _ _ (by decide), hValues_del_ne _ (by decide), hValues_varyStep_ne _ (by decide),
+    hValues_set_self]
+
+theorem initHdr_CL (name : Bytes) (h : Hdr) : hValues (initHdr name h) kCL = [] := by
+  unfold initHdr
+  rw [hValues_etagStep_ne _ _ (by decide), hValues_del_ne _ (by decide), hValues_varyStep_ne _ (by decide),
+    hValues_set_ne _ _ (by decide), hValues_del_self]
+
+theorem initHdr_AR (name : Bytes) (h : Hdr) : hValues (initHdr name h) kAR = [] := by
+  unfold initHdr
+  rw [hValues_etagStep_ne _ _ (by decide), hValues_del_self]
+
+theorem initHdr_vary (name : Bytes) (h : Hdr) : hasVary (initHdr name h) = true := by
+  unfold initHdr
+  rw [hasVary_congr (hValues_etagStep_ne _ _ (by decide)), hasVary_congr (hValues_del_ne _ (by decide))]
+  exact hasVary_varyStep _
+
+/-- the entity tag before the ETag step of `init` is the handler's -/
+theorem initHdr_etag_pre (name : Bytes) (h : Hdr) :
+    hValues (hDel (varyStep (hSet (hDel h kCL) kCE name)) kAR) kEtag = hValues h kEtag := by
+  rw [hValues_del_ne _ (by decide), hValues_varyStep_ne _ (by decide), hValues_set_ne _ _ (by decide),
+    hValues_del_ne _ (by decide)]
+
+theorem initHdr_etag (name : Bytes) (h : Hdr) :
+    hValues (initHdr name h) kEtag =
+      if !(hGet h kEtag).isEmpty && !hasPrefix vWeakPrefix (hGet h kEtag) then [adjustEtag name (hGet h kEtag)]
+      else hValues h kEtag := by
+  unfold initHdr etagStep
+  rw [hGet_congr (initHdr_etag_pre name h)]
+  split
+  · rw [hValues_set_self]
+  · exact initHdr_etag_pre name h
+
+/-! ## events -/
+
+section
+variable {α : Type}
+
+theorem headerOnly_payloads : ∀ (log : List (Ev α)), headerOnly log = true → payloads log = []
+  | [], _ => rfl
+  | ev :: t, h => by
+    simp only [headerOnly, List.all_cons, Bool.and_eq_true] at h
+    obtain ⟨h1, h2⟩ := h
+    cases ev <;> simp [Ev.isWh] at h1
+    simpa [payloads] using headerOnly_payloads t h2
+
+theorem headerOnly_plainOnly (log : List (Ev α)) (h : headerOnly log = true) : plainOnly log = true := by
+  simp only [headerOnly, plainOnly, List.all_eq_true] at *
+  intro ev hev
+  have := h ev hev
+  cases ev <;> simp_all [Ev.isWh, Ev.plainOk]
+
+theorem headerOnly_encOnly (log : List (Ev α)) (h : headerOnly log = true) : encOnly log = true := by
+  simp only [headerOnly, encOnly, List.all_eq_true] at *
+  intro ev hev
+  have := h ev hev
+  cases ev <;> simp_all [Ev.isWh, Ev.encOk]
+
+theorem payloads_head_mono (log : List (Ev α)) (ev : Ev α) (p : α)
+    (h : (payloads log).head? = some p) : (payloads (ev :: log)).head? = some p := by
+  cases ev <;> simp [payloads] <;> (cases hp : payloads log <;> simp_all)
+
+theorem minLenOk_mono (cfg : Cfg α) (h0 : Hdr) (log : List (Ev α)) (ev : Ev α)
+    (h : MinLenOk cfg h0 log) : MinLenOk cfg h0 (ev :: log) := by
+  rcases h with ⟨p, hp, hs⟩ | h
+  · exact Or.inl ⟨p, payloads_head_mono log ev p hp, hs⟩
+  · exact Or.inr h
+
+/-! ## the run invariant (minimum_length > 0, no 101) -/
+
+/-- * before the writer has committed (`wroteHeader = false`) nothing but 1xx headers went down, the final
+      header is not fixed and no encoder is open;
+    * while an encoder is open only encoder output went down and the header that was (or will be) sent is the
+      one `init` produced from an eligible handler header;
+    * committed without an encoder: only plain bytes went down. -/
+structure Inv (cfg : Cfg α) (name : Bytes) (st : St α) : Prop where
+  nm : st.encName = name
+  pre : st.wroteHeader = false → st.sent = none ∧ st.encOpen = false ∧ headerOnly st.log = true
+  opn : st.encOpen = true → encOnly st.log = true ∧
+    ∃ s sc h0, st.sent = some (s, initHdr name h0) ∧ InitOk cfg sc h0 ∧ MinLenOk cfg h0 st.log
+  pln : st.wroteHeader = true → st.encOpen = false → plainOnly st.log = true
+
+theorem Inv.congr {cfg : Cfg α} {name : Bytes} {st st' : St α} (h : Inv cfg name st)
+    (h1 : st'.encName = st.encName) (h2 : st'.encOpen = st.encOpen) (h3 : st'.wroteHeader = st.wroteHeader)
+    (h4 : st'.sent = st.sent) (h5 : st'.log = st.log) : Inv cfg name st' :=
+  ⟨by rw [h1]; exact h.nm, by rw [h3, h4, h2, h5]; exact h.pre, by rw [h2, h4, h5]; exact h.opn,
+    by rw [h3, h2, h5]; exact h.pln⟩
+
+theorem inv_init (cfg : Cfg α) (name : Bytes) (ic : Bool) : Inv cfg name (St.init name ic) :=
+  ⟨rfl, fun _ => ⟨rfl, rfl, rfl⟩, fun h => by simp [St.init] at h, fun h => by simp [St.init] at h⟩
+
+/-- appending one event that is legal in the current phase, without touching the fixed header -/
+theorem Inv.ext {cfg : Cfg α} {name : Bytes} {st st' : St α} (h : Inv cfg name st) (ev : Ev α)
+    (h1 : st'.encName = st.encName) (h2 : st'.encOpen = st.encOpen) (h3 : st'.wroteHeader = st.wroteHeader)
+    (h5 : st'.log = ev :: st.log)
+    (hpre : st.wroteHeader = false → ev.isWh = true ∧ st'.sent = st.sent)
+    (hopn : st.encOpen = true → ev.encOk = true ∧ st'.sent = st.sent)
+    (hpln : st.wroteHeader = true → st.encOpen = false → ev.plainOk = true) : Inv cfg name st' := by
+  refine ⟨by rw [h1]; exact h.nm, ?_, ?_, ?_⟩
+  · intro hw
+    rw [h3] at hw
+    obtain ⟨a, b, c⟩ := h.pre hw
+    obtain ⟨d, e⟩ := hpre hw
+    refine ⟨by rw [e, a], by rw [h2, b], ?_⟩
+    rw [h5]; simp [headerOnly] at c ⊢; exact ⟨d, c⟩
+  · intro ho
+    rw [h2] at ho
+    obtain ⟨a, s, sc, h0, b, c, d⟩ := h.opn ho
+    obtain ⟨e, f⟩ := hopn ho
+    refine ⟨?_, s, sc, h0, by rw [f, b], c, by rw [h5]; exact minLenOk_mono cfg h0 _ ev d⟩
+    rw [h5]; simp [encOnly] at a ⊢; exact ⟨e, a⟩
+  · intro hw ho
+    rw [h3] at hw; rw [h2] at ho
+    have a := h.pln hw ho
+    rw [h5]; simp [plainOnly] at a ⊢; exact ⟨hpln hw ho, a⟩
+
+theorem fixSent_some (s : Nat) (h : Hdr) (x : Nat × Hdr) : fixSent s h (some x) = some x := rfl
+
+/-- an open encoder means the header is already fixed -/
+theorem Inv.sent_of_open {cfg : Cfg α} {name : Bytes} {st : St α} (h : Inv cfg name st)
+    (ho : st.encOpen = true) : ∃ x, st.sent = some x := by
+  obtain ⟨_, s, _, h0, b, _⟩ := h.opn ho
+  exact ⟨_, b⟩
+
+theorem Inv.wrote_of_open {cfg : Cfg α} {name : Bytes} {st : St α} (h : Inv cfg name st)
+    (ho : st.encOpen = true) : st.wroteHeader = true := by
+  cases hw : st.wroteHeader with
+  | true => rfl
+  | false => have := (h.pre hw).2.1; simp [ho] at this
+
+/-! ### WriteHeader -/
+
+theorem is1xx_informational {s : Nat} (h1 : is1xx s = true) (h : s ≠ 101) : isInformational s = true := by
+  simp [isInformational, h1, h]
+
+theorem not_informational_2xx {s : Nat} (h : (200 ≤ s && s ≤ 299) = true) : isInformational s = false := by
+  simp [isInformational, is1xx] at *
+  omega
+
+theorem inv_vary304 {cfg : Cfg α} {name : Bytes} {st : St α} (s : Nat) (h : Inv cfg name st) :
+    Inv cfg name (vary304 s st) := by
+  unfold vary304; split
+  · exact h.congr rfl rfl rfl rfl rfl
+  · exact h
+
+theorem inv_informational {cfg : Cfg α} {name : Bytes} {st : St α} (s : Nat) (h101 : s ≠ 101)
+    (h : Inv cfg name st) : Inv cfg name (informational s st) := by
+  unfold informational
+  split
+  · rename_i h1
+    have hi := is1xx_informational h1 h101
+    refine h.ext (.wh s st.hdr) rfl rfl rfl rfl ?_ ?_ ?_ <;> intros <;> simp [dsWriteHeader, hi, Ev.isWh, Ev.encOk, Ev.plainOk]
+  · exact h
+
+theorem inv_connectImmediate {cfg : Cfg α} {name : Bytes} {st : St α} (s : Nat)
+    (h : Inv cfg name st) : Inv cfg name (connectImmediate s st) := by
+  unfold connectImmediate
+  split
+  · rename_i hc
+    have hni : isInformational s = false := not_informational_2xx (by simp at hc ⊢; exact hc.2)
+    refine ⟨h.nm, fun hw => by simp at hw, ?_, ?_⟩
+    · intro ho
+      have ho' : st.encOpen = true := ho
+      obtain ⟨a, s', sc, h0, b, c, d⟩ := h.opn ho'
+      refine ⟨?_, s', sc, h0, ?_, c, ?_⟩
+      · simp [dsWriteHeader, encOnly, Ev.encOk] at a ⊢; exact a
+      · simp [dsWriteHeader, hni, b, fixSent]
+      · exact minLenOk_mono cfg h0 _ _ d
+    · intro _ ho
+      have ho' : st.encOpen = false := ho
+      have : plainOnly st.log = true := by
+        cases hw : st.wroteHeader with
+        | true => exact h.pln hw ho'
+        | false => exact headerOnly_plainOnly _ (h.pre hw).2.2
+      simp [dsWriteHeader, plainOnly, Ev.plainOk] at this ⊢; exact this
+  · exact h
+
+theorem inv_rwWriteHeader {cfg : Cfg α} {name : Bytes} {st : St α} (s : Nat) (h101 : s ≠ 101)
+    (h : Inv cfg name st) : Inv cfg name (rwWriteHeader st s) := by
+  unfold rwWriteHeader
+  exact inv_informational s h101 (inv_connectImmediate s (inv_vary304 s (h.congr rfl rfl rfl rfl rfl)))
+
+theorem inv_connectDefault {cfg : Cfg α} {name : Bytes} {st : St α}
+    (h : Inv cfg name st) : Inv cfg name (connectDefault st) := by
+  unfold connectDefault
+  split
+  · exact inv_rwWriteHeader 200 (by decide) h
+  · exact h
+
+/-! ### init / Write -/
+
+theorem rwInit_spec (cfg : Cfg α) (st : St α) :
+    rwInit cfg st = st ∨
+    (rwInit cfg st = { st with encOpen := true, hdr := initHdr st.encName st.hdr } ∧ InitOk cfg st.statusCode st.hdr) := by
+  unfold rwInit
+  by_cases h : initOk cfg st = true
+  · right
+    refine ⟨by simp [h], ?_⟩
+    simp [initOk] at h
+    exact ⟨by simpa using h.1.1, h.1.2, h.2⟩
+  · left; simp [h]
+
+theorem clGtMin_sniff (cfg : Cfg α) (st : St α) (p : α) :
+    clGtMin cfg (sniffType cfg st p).hdr = clGtMin cfg st.hdr := by
+  unfold sniffType
+  by_cases hct : (hGet st.hdr kCT).isEmpty = true
+  · simp only [hct, if_true, clGtMin]
+    rw [hGet_congr (hValues_set_ne st.hdr _ (by decide : kCL ≠ kCT))]
+  · simp only [hct]; rfl
+
+theorem headerOnly_cons_wh (s : Nat) (snap : Hdr) (log : List (Ev α)) (h : headerOnly log = true) :
+    headerOnly (Ev.wh s snap :: log) = true := by
+  simp only [headerOnly, List.all_cons, Ev.isWh, Bool.true_and]; exact h
+
+theorem commitHeader_spec (st : St α) (hw : st.wroteHeader = false) (hs : st.sent = none)
+    (hl : headerOnly st.log = true) :
+    (commitHeader st).encName = st.encName ∧ (commitHeader st).encOpen = st.encOpen ∧
+    (commitHeader st).wroteHeader = true ∧ (commitHeader st).hdr = st.hdr ∧
+    headerOnly (commitHeader st).log = true ∧
+    ((commitHeader st).sent = none ∨ ∃ s, (commitHeader st).sent = some (s, st.hdr)) := by
+  unfold commitHeader
+  rw [if_pos (by simp [hw])]
+  by_cases hz : (st.statusCode != 0) = true
+  · rw [if_pos hz]
+    refine ⟨rfl, rfl, rfl, rfl, headerOnly_cons_wh _ _ _ hl, ?_⟩
+    by_cases hi : isInformational st.statusCode = true
+    · left; simp [dsWriteHeader, hi, hs]
+    · right; exact ⟨st.statusCode, by simp [dsWriteHeader, hi, hs, fixSent]⟩
+  · rw [if_neg hz]
+    exact ⟨rfl, rfl, rfl, rfl, hl, Or.inl hs⟩
+
+/-- what the eligibility decision of the first `Write` leaves behind -/
+theorem decide1_spec (cfg : Cfg α) (st : St α) (p : α) :
+    (decide1 cfg st p).log = st.log ∧ (decide1 cfg st p).sent = st.sent ∧
+    (decide1 cfg st p).wroteHeader = st.wroteHeader ∧ (decide1 cfg st p).encName = st.encName ∧
+    (decide1 cfg st p).statusCode = st.statusCode ∧
+    ((decide1 cfg st p).encOpen = st.encOpen ∨
+      (st.wroteHeader = false ∧ cfg.minLen > 0 ∧ (decide1 cfg st p).encOpen = true ∧
+        ∃ h0, (decide1 cfg st p).hdr = initHdr st.encName h0 ∧ InitOk cfg st.statusCode h0 ∧
+          ((Int.ofNat (cfg.size p)) > cfg.minLen ∨ clGtMin cfg h0 = true))) := by
+  unfold decide1
+  by_cases hc : (!st.wroteHeader && decide (cfg.minLen > 0)) = true
+  · simp only [hc, if_true]
+    by_cases hg : gtMinLength cfg st p = true
+    · simp only [hg, if_true]
+      have hsn : (sniffType cfg st p).log = st.log ∧ (sniffType cfg st p).sent = st.sent ∧
+          (sniffType cfg st p).wroteHeader = st.wroteHeader ∧ (sniffType cfg st p).encName = st.encName ∧
+          (sniffType cfg st p).statusCode = st.statusCode ∧ (sniffType cfg st p).encOpen = st.encOpen := by
+        unfold sniffType; split <;> simp
+      obtain ⟨a1, a2, a3, a4, a5, a6⟩ := hsn
+      rcases rwInit_spec cfg (sniffType cfg st p) with e | ⟨e, ok⟩
+      · rw [e]; exact ⟨a1, a2, a3, a4, a5, Or.inl a6⟩
+      · rw [e]
+        simp only [Bool.and_eq_true, Bool.not_eq_true', decide_eq_true_eq] at hc
+        refine ⟨a1, a2, a3, a4, a5, Or.inr ⟨hc.1, hc.2, rfl, (sniffType cfg st p).hdr, by rw [a4], by rw [← a5]; exact ok, ?_⟩⟩
+        rw [clGtMin_sniff]
+        simp only [gtMinLength, Bool.or_eq_true, decide_eq_true_eq] at hg
+        exact hg
+    · simp [hg]
+  · simp [hc]
+
+theorem inv_emit_committed {cfg : Cfg α} {name : Bytes} {st : St α} (p : α)
+    (h : Inv cfg name st) (hw : st.wroteHeader = true) : Inv cfg name (emit st p) := by
+  unfold emit
+  split
+  · rename_i ho
+    obtain ⟨x, hx⟩ := h.sent_of_open ho
+    refine h.ext (.e p) rfl rfl rfl rfl ?_ ?_ ?_ <;> intros <;>
+      simp_all [encWrite, implicitHeader, fixSent, Ev.encOk]
+  · rename_i ho
+    refine h.ext (.w p) rfl rfl rfl rfl ?_ ?_ ?_ <;> intros <;>
+      simp_all [dsWrite, implicitHeader, Ev.plainOk]
+
+theorem commitHeader_noop (st : St α) (hw : st.wroteHeader = true) : commitHeader st = st := by
+  simp [commitHeader, hw]
+
+theorem decide1_noop (cfg : Cfg α) (st : St α) (p : α) (hw : st.wroteHeader = true) : decide1 cfg st p = st := by
+  simp [decide1, hw]
+
+/-- the first non-empty `Write`: decide, commit the header, emit -/
+theorem inv_first_write {cfg : Cfg α} {name : Bytes} {st : St α} (p : α)
+    (h : Inv cfg name st) (hw : st.wroteHeader = false) :
+    Inv cfg name (emit (commitHeader (decide1 cfg st p)) p) := by
+  obtain ⟨hs, ho, hl⟩ := h.pre hw
+  obtain ⟨d1, d2, d3, d4, d5, d6⟩ := decide1_spec cfg st p
+  generalize decide1 cfg st p = st2 at *
+  rw [hw] at d3; rw [hs] at d2; rw [h.nm] at d4
+  have hpl : payloads st.log = [] := headerOnly_payloads _ hl
+  -- the committed state
+  have c1 := commitHeader_spec st2 d3 d2 (by rw [d1]; exact hl)
+  rw [d4] at c1
+  obtain ⟨e1, e2, e3, e4, e5, e6⟩ := c1
+  generalize commitHeader st2 = st3 at *
+  have hpl3 : payloads st3.log = [] := headerOnly_payloads _ e5
+  unfold emit
+  by_cases ho3 : st3.encOpen = true
+  · simp only [ho3, if_true]
+    have hopen : st2.encOpen = true := by rw [← e2]; exact ho3
+    rcases d6 with d6 | ⟨_, _, _, h0, f1, f2, f3⟩
+    · rw [ho] at d6; rw [d6] at hopen; cases hopen
+    · refine ⟨e1, fun hw' => by simp [encWrite, implicitHeader, e3] at hw', fun _ => ⟨?_, ?_⟩, fun _ ho' => ?_⟩
+      · have := headerOnly_encOnly _ e5
+        simp [encWrite, implicitHeader, encOnly, Ev.encOk] at this ⊢; exact this
+      · have hsent : ∃ s, (encWrite st3 p).sent = some (s, initHdr name h0) := by
+          rcases e6 with e6 | ⟨s, e6⟩
+          · exact ⟨200, by simp [encWrite, implicitHeader, e6, fixSent, e4, f1, h.nm]⟩
+          · exact ⟨s, by simp [encWrite, implicitHeader, e6, fixSent, f1, h.nm]⟩
+        obtain ⟨s, hs'⟩ := hsent
+        refine ⟨s, st.statusCode, h0, hs', f2, ?_⟩
+        have hp : (payloads (encWrite st3 p).log).head? = some p := by
+          simp [encWrite, implicitHeader, payloads, hpl3]
+        rcases f3 with f3 | f3
+        · exact Or.inl ⟨p, hp, f3⟩
+        · exact Or.inr f3
+      · simp [encWrite, implicitHeader, ho3] at ho'
+  · simp only [ho3]
+    have ho3' : st3.encOpen = false := by simpa using ho3
+    refine ⟨e1, fun hw' => by simp [dsWrite, implicitHeader, e3] at hw', fun ho' => ?_, fun _ _ => ?_⟩
+    · simp [dsWrite, implicitHeader, ho3'] at ho'
+    · have := headerOnly_plainOnly _ e5
+      simp [dsWrite, implicitHeader, plainOnly, Ev.plainOk] at this ⊢; exact this
+
+theorem inv_rwWrite {cfg : Cfg α} {name : Bytes} {st : St α} (p : α)
+    (h : Inv cfg name st) : Inv cfg name (rwWrite cfg st p) := by
+  unfold rwWrite
+  split
+  · exact h
+  · have h' := inv_connectDefault h
+    generalize connectDefault st = st1 at *
+    cases hw : st1.wroteHeader with
+    | true => rw [decide1_noop _ _ _ hw, commitHeader_noop _ hw]; exact inv_emit_committed p h' hw
+    | false => exact inv_first_write p h' hw
+
+/-! ### Flush -/
+
+theorem inv_encWrite {cfg : Cfg α} {name : Bytes} {st : St α} (p : α)
+    (h : Inv cfg name st) (ho : st.encOpen = true) : Inv cfg name (encWrite st p) := by
+  have := inv_emit_committed p h (h.wrote_of_open ho)
+  simpa [emit, ho] using this
+
+theorem inv_dsWrite {cfg : Cfg α} {name : Bytes} {st : St α} (p : α)
+    (h : Inv cfg name st) (hw : st.wroteHeader = true) (ho : st.encOpen = false) : Inv cfg name (dsWrite st p) := by
+  have := inv_emit_committed p h hw
+  simpa [emit, ho] using this
+
+theorem inv_flushThrough {cfg : Cfg α} {name : Bytes} {st : St α}
+    (h : Inv cfg name st) (hw : st.wroteHeader = true) : Inv cfg name (flushThrough st) := by
+  unfold flushThrough
+  by_cases ho : st.encOpen = true
+  · obtain ⟨x, hx⟩ := h.sent_of_open ho
+    simp only [ho, if_true]
+    have h1 : Inv cfg name (encFlush st) := by
+      refine h.ext .ef rfl rfl rfl rfl ?_ ?_ ?_ <;> intros <;>
+        simp_all [encFlush, implicitHeader, fixSent, Ev.encOk]
+    refine h1.ext .fl rfl rfl rfl rfl ?_ ?_ ?_ <;> intros <;>
+      simp_all [dsFlush, encFlush, implicitHeader, fixSent, Ev.encOk]
+  · simp only [ho]
+    refine h.ext .fl rfl rfl rfl rfl ?_ ?_ ?_ <;> intros <;>
+      simp_all [dsFlush, implicitHeader, Ev.plainOk]
+
+theorem inv_rwFlush {cfg : Cfg α} {name : Bytes} {st : St α}
+    (h : Inv cfg name st) : Inv cfg name (rwFlush st) := by
+  unfold rwFlush
+  have h' := inv_connectDefault h
+  generalize connectDefault st = st1 at *
+  cases hw : st1.wroteHeader with
+  | true => simpa [hw] using inv_flushThrough h' hw
+  | false => simpa [hw] using h'
+
+/-! ### ReadFrom -/
+
+theorem emit_wrote (st : St α) (p : α) : (emit st p).wroteHeader = st.wroteHeader := by
+  unfold emit; split <;> rfl
+
+theorem commitHeader_wrote (st : St α) : (commitHeader st).wroteHeader = true := by
+  unfold commitHeader
+  cases hw : st.wroteHeader <;> simp [hw]
+
+theorem rwWrite_wrote (cfg : Cfg α) (st : St α) (p : α) (hp : (cfg.size p == 0) = false) :
+    (rwWrite cfg st p).wroteHeader = true := by
+  unfold rwWrite
+  simp only [hp]
+  rw [if_neg (by simp), emit_wrote, commitHeader_wrote]
+
+theorem rwWrite_wrote_mono (cfg : Cfg α) (st : St α) (p : α) (hw : st.wroteHeader = true) :
+    (rwWrite cfg st p).wroteHeader = true := by
+  unfold rwWrite
+  split
+  · exact hw
+  · have h1 : (connectDefault st) = st := by simp [connectDefault, hw]
+    rw [h1, decide1_noop _ _ _ hw, commitHeader_noop _ hw, emit_wrote]; exact hw
+
+theorem nonEmpty_size (cfg : Cfg α) (chunks : List α) : ∀ c ∈ nonEmpty cfg chunks, (cfg.size c == 0) = false := by
+  intro c hc
+  simp [nonEmpty, List.mem_filter] at hc
+  simpa using hc.2
+
+/-- the sniffing phase keeps the invariant; if it used up its allowance it has written something -/
+theorem inv_sniffLoop {cfg : Cfg α} {name : Bytes} :
+    ∀ (chunks : List α) (n : Nat) (st : St α), Inv cfg name st → (∀ c ∈ chunks, (cfg.size c == 0) = false) →
+      Inv cfg name (sniffLoop cfg chunks n st).1 ∧
+      ((sniffLoop cfg chunks n st).2.2 = 0 → n ≠ 0 ∨ st.wroteHeader = true → (sniffLoop cfg chunks n st).1.wroteHeader = true)
+  | [], n, st, h, _ => by
+    simp only [sniffLoop]
+    exact ⟨h, fun hn hor => by rcases hor with h1 | h1; exact absurd hn h1; exact h1⟩
+  | c :: cs, n, st, h, hne => by
+    unfold sniffLoop
+    by_cases hn : n = 0
+    · simp only [hn, if_true]
+      exact ⟨h, fun _ hor => by rcases hor with h1 | h1; exact absurd rfl h1; exact h1⟩
+    · simp only [hn, if_false]
+      have hc := hne c (List.mem_cons_self)
+      have h1 : Inv cfg name { rwWrite cfg st c with unreal := st.unreal || decide (cfg.size c > n) } :=
+        (inv_rwWrite c h).congr rfl rfl rfl rfl rfl
+      have hw1 : ({ rwWrite cfg st c with unreal := st.unreal || decide (cfg.size c > n) } : St α).wroteHeader = true :=
+        rwWrite_wrote cfg st c hc
+      obtain ⟨i1, i2⟩ := inv_sniffLoop cs (n - cfg.size c) _ h1 (fun x hx => hne x (List.mem_cons_of_mem _ hx))
+      exact ⟨i1, fun hz _ => i2 hz (Or.inr hw1)⟩
+
+theorem inv_copyRest {cfg : Cfg α} {name : Bytes} :
+    ∀ (chunks : List α) (st : St α), Inv cfg name st → (st.wroteHeader = true ∨ chunks = []) →
+      Inv cfg name (copyRest st chunks) := by
+  intro chunks st h hw
+  unfold copyRest
+  by_cases ho : st.encOpen = true
+  · simp only [ho, if_true]
+    clear hw
+    induction chunks generalizing st with
+    | nil => exact h
+    | cons c cs ih => exact ih (encWrite st c) (inv_encWrite c h ho) (by simp [encWrite, implicitHeader, ho])
+  · simp only [ho]
+    have ho' : st.encOpen = false := by simpa using ho
+    rcases hw with hw | hw
+    · induction chunks generalizing st with
+      | nil => exact h
+      | cons c cs ih =>
+        exact ih (dsWrite st c) (inv_dsWrite c h hw ho') (by simp [dsWrite, implicitHeader, ho'])
+          (by simp [dsWrite, implicitHeader, ho']) (by simp [dsWrite, implicitHeader, hw])
+    · subst hw; exact h
+
+theorem inv_rwReadFrom {cfg : Cfg α} {name : Bytes} {st : St α} (chunks : List α) (hmin : cfg.minLen > 0)
+    (h : Inv cfg name st) : Inv cfg name (rwReadFrom cfg st chunks) := by
+  unfold rwReadFrom
+  by_cases hc : (!st.wroteHeader && decide (cfg.minLen > 0)) = true
+  · simp only [hc, if_true]
+    obtain ⟨i1, i2⟩ := inv_sniffLoop (nonEmpty cfg chunks) 512 st h (nonEmpty_size cfg chunks)
+    unfold afterSniff
+    by_cases hz : (sniffLoop cfg (nonEmpty cfg chunks) 512 st).2.2 = 0
+    · simp only [hz, if_true]
+      exact inv_copyRest _ _ i1 (Or.inl (i2 hz (Or.inl (by decide))))
+    · simp only [hz, if_false]; exact i1
+  · simp only [hc]
+    have hw : st.wroteHeader = true := by
+      cases hw : st.wroteHeader with
+      | true => rfl
+      | false => simp [hw, hmin] at hc
+    exact inv_copyRest _ _ h (Or.inl hw)
+
+/-! ### any script -/
+
+theorem inv_step {cfg : Cfg α} {name : Bytes} {st : St α} (op : Op α) (hmin : cfg.minLen > 0)
+    (h101 : op ≠ Op.writeHeader 101) (h : Inv cfg name st) : Inv cfg name (step cfg st op) := by
+  cases op with
+  | writeHeader s => exact inv_rwWriteHeader s (fun e => h101 (by rw [e])) h
+  | write p => exact inv_rwWrite p h
+  | flush => exact inv_rwFlush h
+  | readFrom cs => exact inv_rwReadFrom cs hmin h
+  | hset k v => exact h.congr rfl rfl rfl rfl rfl
+  | hadd k v => exact h.congr rfl rfl rfl rfl rfl
+  | hdel k => exact h.congr rfl rfl rfl rfl rfl
+
+theorem inv_run {cfg : Cfg α} {name : Bytes} (hmin : cfg.minLen > 0) :
+    ∀ (ops : List (Op α)) (st : St α), No101 ops → Inv cfg name st → Inv cfg name (run cfg st ops)
+  | [], _, _, h => h
+  | op :: ops, st, h101, h => by
+    have : run cfg st (op :: ops) = run cfg (step cfg st op) ops := rfl
+    rw [this]
+    exact inv_run hmin ops _ (fun o ho => h101 o (List.mem_cons_of_mem _ ho))
+      (inv_step op hmin (h101 op List.mem_cons_self) h)
+
+end
 
 end CaddyModel.C15
